@@ -624,6 +624,56 @@ def job_analyze(job):
                     so["diff_recurrences_exc"] = f"{type(ex).__name__}: {str(ex)[:200]}"
         res["sens"] = sout
 
+    if "sens_cli" in want and dparam:
+        # what a user sees: the sensitivity action itself, driven through the argument parser with --at_n n, its
+        # printed lines  dE(g | n=k) = value  read back (both methods)
+        import contextlib
+        import io
+        import tempfile as _tf
+        from cli import ArgumentParser
+        from cli.actions import ActionFactory
+        cout_ = {}
+        tf = _tf.NamedTemporaryFile("w", suffix=".prob", delete=False)
+        tf.write(job["text"])
+        tf.close()
+        old_argv = sys.argv
+        try:
+            for method, flag in (("recurrences", "-sens"), ("closed_form", "-sens_diff")):
+                per_goal = {g: [] for g in job.get("goals", [])}
+                for n in range(N + 1):
+                    sys.argv = ["polar.py", tf.name, "--goals"] + [f"E({g})" for g in job.get("goals", [])] + ["--at_n", str(n), flag, dparam]
+                    buf = io.StringIO()
+                    err = None
+                    try:
+                        with contextlib.redirect_stdout(buf):
+                            a_ = ArgumentParser().parse_args()
+                            ActionFactory.create_action(a_)(tf.name)
+                    except JobTimeout:
+                        raise
+                    except (Exception, SystemExit) as ex:
+                        err = f"{type(ex).__name__}: {str(ex)[:150]}"
+                    lines = {}
+                    for ln in buf.getvalue().splitlines():
+                        m_ = re.match(r"^\u2202E\((.*) \| n=(\d+)\) = (.*) \u2245", ln)
+                        if m_:
+                            lines[m_.group(1).replace(" ", "")] = m_.group(3)
+                    for g in per_goal:
+                        key = str(symengine.sympify(g)).replace(" ", "")
+                        if key in lines:
+                            try:
+                                ex_ = sympy.sympify(lines[key])
+                                per_goal[g].append([eval_closed_form(ex_, pt, n) for pt in points])
+                            except Exception as ex:
+                                per_goal[g].append([{"undef": f"unparsable: {lines[key][:80]}"} for pt in points])
+                        else:
+                            per_goal[g].append([{"undef": err or "no line printed"} for pt in points])
+                cout_[method] = {g: [[vals[n][pi] for n in range(N + 1)] for pi in range(len(points))] for g, vals in per_goal.items()}
+        finally:
+            sys.argv = old_argv
+            os.unlink(tf.name)
+            apply_settings(job.get("settings"))
+        res["sens_cli"] = cout_
+
     # ---- tail bounds, read off the action's printed output at every n (what a user sees)
     if "tail" in want:
         import contextlib
